@@ -23,3 +23,6 @@ mod e4_adt;
 /// binds it to `revm_interpreter` directly)
 pub use revm::interpreter as itp;
 mod e5_interp;
+mod e3_wrap;
+#[cfg(feature = "optimism")]
+mod op_sim;
